@@ -250,6 +250,37 @@ def Ev.bytes : List Ev → Bytes
 
 def findUser (users : List User) (h : Bytes) : Option User := users.find? (fun u => u.hash = h)
 
+/-- the part of `init_aead_2022_payload_decoder` after the fixed-length header has been opened:
+`h` = its plaintext (type ‖ timestamp ‖ [request salt] ‖ length), `a` = the authenticator after it -/
+def init2022Tail (C : Crypto) (env : DecEnv) (d : Dec) (s : Sess) (b : Bytes)
+    (n headerLen requestSaltLen : Nat) (salt : Bytes) (a : Auth) (h : Bytes) : Fr.Step Dec Ev :=
+  if h.headD 0 ≠ s.mode.expectU8 then .fail d 0 else
+  let ts := rdBE ((h.drop 1).take 8)
+  if absDiff env.now ts > Consts.ssMaxTimeDiff then .fail d 0 else
+  let echoed := (h.drop 9).take requestSaltLen
+  if s.mode = .client ∧ echoed ≠ s.salt then .fail d 0 else
+  let s := if s.mode = .client then { s with requestSalt := some echoed } else s
+  let d := { d with sess := s }
+  let len := rdBE ((h.drop (9 + requestSaltLen)).take 2)
+  let rest := b.drop (n + headerLen)
+  if rest.length < len + 16 then .need else
+  match a.openB C (rest.take (len + 16)) with
+  | (none, _) => .fail d (n + headerLen + len + 16)
+  | (some via, a) =>
+  let consumed := n + headerLen + len + 16
+  let cd : ChunkDec := ⟨a, .length⟩
+  if s.mode = .server ∧ s.address.isNone then
+    match Socks5Addr.decode via with
+    | .ok (addr, via) =>
+      if via.length < 2 then .fail { d with chunk := some cd } consumed else
+      let pl := rdBE (via.take 2)
+      if via.length < 2 + pl then .fail { d with chunk := some cd } consumed else
+      .take { chunk := some cd, sess := { s with address := some addr } } consumed
+        (.accepted salt :: (via.drop (2 + pl)).map .byte)
+    | _ => .fail { d with chunk := some cd } consumed
+  else
+    .take { chunk := some cd, sess := s } consumed (.accepted salt :: via.map .byte)
+
 /-- `init_aead_2022_payload_decoder` as a unit step over the whole first read -/
 def init2022 (C : Crypto) (ctx : Ctx) (env : DecEnv) (d : Dec) (b : Bytes) : Fr.Step Dec Ev :=
   let n := ctx.kind.n
@@ -282,34 +313,7 @@ def init2022 (C : Crypto) (ctx : Ctx) (env : DecEnv) (d : Dec) (b : Bytes) : Fr.
   let a := newAuth C ctx.kind key salt
   match a.openB C (header.drop eihLen) with
   | (none, _) => .fail d 0
-  | (some h, a) =>
-  -- h = type(1) ts(8) [request salt(n)] len(2)
-  if h.headD 0 ≠ s.mode.expectU8 then .fail d 0 else
-  let ts := rdBE ((h.drop 1).take 8)
-  if absDiff env.now ts > Consts.ssMaxTimeDiff then .fail d 0 else
-  let echoed := (h.drop 9).take requestSaltLen
-  if s.mode = .client ∧ echoed ≠ s.salt then .fail d 0 else
-  let s := if s.mode = .client then { s with requestSalt := some echoed } else s
-  let d := { d with sess := s }
-  let len := rdBE ((h.drop (9 + requestSaltLen)).take 2)
-  let rest := b.drop (n + headerLen)
-  if rest.length < len + 16 then .need else
-  match a.openB C (rest.take (len + 16)) with
-  | (none, _) => .fail d (n + headerLen + len + 16)
-  | (some via, a) =>
-  let consumed := n + headerLen + len + 16
-  let cd : ChunkDec := ⟨a, .length⟩
-  if s.mode = .server ∧ s.address.isNone then
-    match Socks5Addr.decode via with
-    | .ok (addr, via) =>
-      if via.length < 2 then .fail { d with chunk := some cd } consumed else
-      let pl := rdBE (via.take 2)
-      if via.length < 2 + pl then .fail { d with chunk := some cd } consumed else
-      .take { chunk := some cd, sess := { s with address := some addr } } consumed
-        (.accepted salt :: (via.drop (2 + pl)).map .byte)
-    | _ => .fail { d with chunk := some cd } consumed
-  else
-    .take { chunk := some cd, sess := s } consumed (.accepted salt :: via.map .byte)
+  | (some h, a) => init2022Tail C env d s b n headerLen requestSaltLen salt a h
 
 /-- legacy first step: the salt; then (server) the target address at the head of the plaintext -/
 def unit (C : Crypto) (ctx : Ctx) (env : DecEnv) (d : Dec) (b : Bytes) : Fr.Step Dec Ev :=
